@@ -8,6 +8,8 @@
                   d<ms>:<n> (ev/with-deadline ms/1000 <next n ops>) | s:<cl>,<cl>.. select | r:<cl>,.. rselect
                   clause  t<c> | g<c>:<x>
     Q <ops>                    p<n> push | h<n> push_head | o pop   -> per op "rc/popped/cap/head/tail/count[contents]"
+    M <ops>                    same ops on a channel's items ring        -> per op "[ids passed to janet_mark by the walk of
+                               janet_chanat_mark extracted from the current source, sorted]"
 -/
 import Driver.Util
 import JanetModel.Ev.Exec
@@ -87,6 +89,33 @@ def runQ (toks : List String) : String :=
       | _ => go rest q acc
   String.intercalate " " (go toks (RingQ.init 0) [])
 
+def insertSorted (x : Nat) : List Nat → List Nat
+  | [] => [x]
+  | y :: r => if x ≤ y then x :: y :: r else y :: insertSorted x r
+
+def showM (q : RingQ Nat) : String :=
+  s!"[{commaSep (((currentMarkItems.visit q).foldl (fun acc x => insertSorted x acc) []).map toString)}]"
+
+def runM (toks : List String) : String :=
+  let rec go : List String → RingQ Nat → List String → List String
+    | [], _, acc => acc.reverse
+    | t :: rest, q, acc =>
+      match t.toList with
+      | 'p' :: r =>
+        match RingQ.push maxQCapacity q ((String.ofList r).toNat?.getD 0) with
+        | some q' => go rest q' (showM q' :: acc)
+        | none => go rest q (showM q :: acc)
+      | 'h' :: r =>
+        match RingQ.pushHead maxQCapacity q ((String.ofList r).toNat?.getD 0) with
+        | some q' => go rest q' (showM q' :: acc)
+        | none => go rest q (showM q :: acc)
+      | ['o'] =>
+        match RingQ.pop q with
+        | some (_, q') => go rest q' (showM q' :: acc)
+        | none => go rest q (showM q :: acc)
+      | _ => go rest q acc
+  String.intercalate " " (go toks (RingQ.init 0) [])
+
 def stepLine (_ : Unit) (toks : List String) : Unit × String :=
   match toks with
   | "prog" :: cfg :: limits :: rng :: rest =>
@@ -108,6 +137,7 @@ def stepLine (_ : Unit) (toks : List String) : Unit × String :=
       else ((), Prog.render cfg { limits := parseNats limits, fibers := fibs, rng := parseNats rng, sups := segs.map supOf,
                                    clockStart := 100000, clockStep := 16 })
   | "Q" :: ops => ((), runQ ops)
+  | "M" :: ops => ((), runM ops)
   | _ => ((), "bad-op")
 
 def main : IO Unit := runLoop () stepLine
